@@ -119,7 +119,14 @@ class VRef(V):
         return f"VRef({self.z})"
 
 
-ELEM_SORT = {"int": I, "ref": I, "bytes": S, "str": S, "bool": B, "json": I}
+class _ElemSort(dict):
+    def __missing__(self, k):
+        if isinstance(k, str) and k.startswith("obj:"):
+            return I  # opaque library objects (module infos, modules, functions) are identifiers
+        raise KeyError(k)
+
+
+ELEM_SORT = _ElemSort({"int": I, "ref": I, "bytes": S, "str": S, "bool": B, "json": I})
 
 
 class VList(V):
@@ -201,7 +208,25 @@ class VJson(V):
 JSON_FIELDS = {"type": "str", "value": "str", "obfuscation": "str", "start": "int", "end": "int", "children": "list"}
 
 
+class VObjRef(V):
+    """An opaque library object (a pkgutil module info, an imported module, a function object): an identifier; its attributes are
+    uninterpreted functions of it (see builtins_tbl.OBJ_ATTRS)."""
+
+    kind = "objref"
+
+    def __init__(self, cls, z):
+        self.cls, self.z = cls, z
+
+    def __repr__(self):
+        return f"VObjRef<{self.cls}>({self.z})"
+
+
 def elem_val(ek, z):
+    if isinstance(ek, str) and ek.startswith("obj:"):
+        if ek == "obj:member":
+            # an entry of inspect.getmembers(): the pair (name, object)
+            return VTuple([VStr(z3.Function("MEMBER_NAME", I, S)(z)), VObjRef("function", z3.Function("MEMBER_OBJECT", I, I)(z))])
+        return VObjRef(ek[4:], z)
     return {"int": VInt, "ref": VRef, "bytes": VBytes, "str": VStr, "bool": VBool, "json": VJson}[ek](z)
 
 
